@@ -118,7 +118,7 @@ func TestC17(t *testing.T) {
 	}
 
 	rcheck(t, "requests", V.N(1200, 10000), func(rt *rapid.T) {
-		rc := s.gRelayRequest(rt, relayOpts{Paths: []string{"backend", "route", "static"}, MaxVias: 5, MaxRRs: 3, MaxExt: 8, MaxLong: 0, MaxBody: 200, Entries: []int{0, 1}})
+		rc := s.gRelayRequest(rt, relayOpts{LongLists: true, Paths: []string{"backend", "route", "static"}, MaxVias: 5, MaxRRs: 3, MaxExt: 8, MaxLong: 0, MaxBody: 200, Entries: []int{0, 1}})
 		twin := restyle(rt, "twin", rc.Msg)
 		rc2 := rc
 		rc2.Msg, rc2.Wire = twin, jsonBytes(twin.Bytes())
@@ -136,6 +136,13 @@ func TestC17(t *testing.T) {
 			V.HarnessError(rt, "%v", err)
 		}
 		V.Class("pair:request")
+		for _, m := range []*AMsg{rc.Msg, twin} {
+			for _, h := range m.Hdrs {
+				if h.Kind == hRR && len(h.ValueText(0)) > 4096 {
+					V.ClassIf(rc.Ingress.TCP, "a joined list line longer than the 4096-byte reader window, over tcp")
+				}
+			}
+		}
 		classes(rc.Msg, twin)
 		V.NonTrivial(c17Spellings(rc.Msg) + "|" + c17Spellings(twin) + "|" + string(rc.Msg.Bytes()))
 		V.SampleEvery(150, func() any {
